@@ -79,7 +79,7 @@ def run(ctx):
         elif pv["class"]["panicked"] or pv["rc"] not in (0, 1) or pv["class"]["n_error"] == 0:
             st["panicked"] += 1
             ctx.violation({"rule": "refused_without_diagnostic", "operator": op, "variant": variant,
-                           "loc": (pv["class"]["panic_loc"] or "").split(":")[0], "msg": evaluate.norm_msg(pv["class"]["panic_msg"])},
+                           "loc": evaluate.norm_loc(pv["class"]["panic_loc"]), "msg": evaluate.norm_msg(pv["class"]["panic_msg"])},
                           {"case": c["id"], "planted": planted, "spec": c["spec"], "rc": pv["rc"], "stderr": pv["stderr"][-2500:]})
         else:
             st["rejected"] += 1
